@@ -40,29 +40,16 @@ theorem mfd_search_finds_proof (inp : FlowInput) (h : BaseWF inp.base) (hac : Ac
     exact (hd j).2 (fun hfe => hmin.2 j hj ((kfd_feasible_iff_proof inp j h hac hcfg).1 hfe))
 
 /-- end-to-end over the model of `MinFlowDecomp.solve`: with a lower bound whose ingredients are valid
-for the true minimum `m` and `m ≤ |E|`, a decisive solver makes the search return `m` -/
+for the true minimum `m` and `m ≤ |E| + #constraints`, a decisive solver makes the search return `m` -/
 theorem mfd_solve_returns_min_proof (inp : FlowInput) (h : BaseWF inp.base) (hac : Acyclic inp.base)
-    (hcfg : PlainCfg inp) (σ : Nat → Status) (hd : Decisive inp σ) (x : LBIn) (numEdges m : Nat)
-    (hmin : IsMinDecomp inp m) (hm : m ≤ numEdges)
+    (hcfg : PlainCfg inp) (σ : Nat → Status) (hd : Decisive inp σ) (x : LBIn) (numEdges numCons m : Nat)
+    (hmin : IsMinDecomp inp m) (hm : m ≤ numEdges + numCons)
     (hopt : x.optLb.getD 1 ≤ m) (hlog : distinctInt x.flows ≤ 2 ^ m) (hwidth : x.width ≤ m)
-    (hmgs : x.useMgs = true → ∀ s, x.mgs = some s → s ≤ m)
-    (hscan : x.useScan = true → ∀ s, x.scan = some s → s ≤ m)
-    (hflows : distinctInt x.flows ≠ 0) :
-    ∃ o, MFD.solve x numEdges σ = some o ∧ o.solved = some m := by
+    (hmgs : x.ignoreEmpty = true → x.useMgs = true → ∀ s, x.mgs = some s → s ≤ m)
+    (hscan : x.useScan = true → ∀ s, x.scan = some s → s ≤ m) :
+    (MFD.solve x numEdges numCons σ).solved = some m := by
   unfold MFD.solve
-  cases hl : lowerboundK x with
-  | value lo =>
-    have hlo : lo ≤ m := lowerboundK_valid_proof x m lo hopt hlog hwidth hmgs hscan hl
-    exact ⟨_, rfl, mfd_search_finds_proof inp h hac hcfg σ hd lo _ m hmin hlo (by unfold searchHi; omega)⟩
-  | valueError =>
-    exfalso
-    unfold lowerboundK at hl
-    simp only [hflows, if_false] at hl
-    cases hl
-  | exit =>
-    exfalso
-    unfold lowerboundK at hl
-    simp only [hflows, if_false] at hl
-    cases hl
+  have hlo : lowerboundN x ≤ m := lowerboundN_valid_proof x m hopt hlog hwidth hmgs hscan
+  exact mfd_search_finds_proof inp h hac hcfg σ hd _ _ m hmin hlo (by unfold searchHi; omega)
 
 end FP
